@@ -168,6 +168,16 @@ Proof.
   unfold sw_ids, sw_add_case. cbn. rewrite map_app. cbn. rewrite app_assoc. apply Permutation_sym, Permutation_cons_append.
 Qed.
 
+Lemma sw_ids_mark (g : bool) r u : sw_ids (if g then sw_mark_auto r u else r) = sw_ids r.
+Proof. destruct g; reflexivity. Qed.
+
+Lemma sw_claim_ids r nm r' : sw_claim r nm = Ok r' -> sw_ids r' = sw_ids r.
+Proof.
+  unfold sw_claim. destruct (find (name_is nm) (sw_all_cats r)) as [c|]; [|intros H; injection H as <-; reflexivity].
+  destruct (_ || _); [discriminate|]. destruct (memb (cc_uuid c) (sw_auto r)); [|intros H; injection H as <-; reflexivity].
+  destruct (alt_loop _ _ _) as [nm'|e]; [|discriminate]. intros H. injection H as <-. apply sw_ids_upd_cat. reflexivity.
+Qed.
+
 Lemma sw_add_choice_ids n r v ty args name d b r' n' :
   sw_add_choice fresh n r v ty args name d b = Ok (r', n') ->
   n <= n' /\ exists news, FreshList n n' news /\ Permutation (sw_ids r') (news ++ sw_ids r).
@@ -180,10 +190,13 @@ Proof.
     + destruct (new_case _ _ _ _ _) as [[k n1]|e] eqn:Ek; [|discriminate]. intros H. injection H as <- <-.
       apply (new_case_spec fresh fresh_inj) in Ek as (Hu & _ & ->). split; [lia|]. exists [fresh n]. split; [apply FreshList_one; lia|].
       rewrite sw_ids_add_case, Hu, sw_ids_update_default. apply Permutation_refl.
-    + destruct (find (name_is nm) _) as [c|].
+    + destruct (if explicit_names_claimed && _ then sw_claim r0 nm else Ok r0) as [r1|e] eqn:Ecl; [|discriminate].
+      assert (E1 : sw_ids r1 = sw_ids r0).
+      { destruct (explicit_names_claimed && _); [eapply sw_claim_ids; eauto|injection Ecl as <-; reflexivity]. }
+      rewrite <- E1. clear Ecl E1. destruct (find (name_is nm) _) as [c|].
       * destruct (new_case _ _ _ _ _) as [[k n1]|e] eqn:Ek; [|discriminate]. intros H. injection H as <- <-.
         apply (new_case_spec fresh fresh_inj) in Ek as (Hu & _ & ->). split; [lia|]. exists [fresh n]. split; [apply FreshList_one; lia|].
-        rewrite sw_ids_add_case, Hu, sw_ids_upd_cat by reflexivity. apply Permutation_refl.
+        rewrite sw_ids_mark, sw_ids_add_case, Hu, sw_ids_upd_cat by reflexivity. apply Permutation_refl.
       * destruct (new_cat _ _ _ _) as [[c n1]|e] eqn:Ec; [|discriminate].
         destruct (new_case _ _ _ _ _) as [[k n2]|e] eqn:Ek; [|discriminate]. intros H. injection H as <- <-.
         apply (new_cat_spec fresh fresh_inj) in Ec as (-> & ->). apply (new_case_spec fresh fresh_inj) in Ek as (Hu & _ & ->). split; [lia|].
@@ -191,7 +204,7 @@ Proof.
         -- apply FreshList_indices.
            ++ constructor; [cbn; lia|]. constructor; [cbn; lia|]. constructor; [cbn; lia|constructor].
            ++ intros m Hm. cbn in Hm. lia.
-        -- rewrite sw_ids_add_case, Hu, sw_ids_add_cat. cbn. apply Permutation_refl.
+        -- rewrite sw_ids_mark, sw_ids_add_case, Hu, sw_ids_add_cat. cbn. apply Permutation_refl.
 Qed.
 
 Lemma new_switch_ids n operand result timeout r n' :
